@@ -141,6 +141,11 @@ REJECTED_THEN_USE = [
                                          "gs.mp.psi(2,ket)"]),
 ]
 
+# requests whose text depended on the hash seed / Dummy count before fix c65a38d (anonymous
+# same-named indices created by wicks): checked under every environment of the pool
+ENV_REGRESSION = {"expr.wicks(opgen)", "expr.wicks(opgen,deltas)", "expr.wicks(wick3,nodeltas)",
+                  "expr.wicks(opstring2)"}
+
 PANEL = ["m.mp.pp.isr_matrix_block(1,ph,ph,ia,jb)", "gs.mp.expand_norm_factor(6)",
          "isr.mp.pp.expand_S_taylor(6)", "isr.mp.ea.precursor(1,p,ket,a)",
          "m.mp.ip.isr_matrix_block(1,h,h,i,j)", "gs.mp.energy(2)", "prop.mp.pp.trans_moment(1)",
@@ -262,7 +267,10 @@ def run(tier, seed):
     n_env = 6 if thorough else 2
     jobs = []
     for tid in tids:
-        if cat.BY_ID[tid]["cost"] >= 6 and not thorough:
+        if tid in ENV_REGRESSION:
+            # regression schedules of repaired defects: all environments of the pool
+            envs = pool[1:]
+        elif cat.BY_ID[tid]["cost"] >= 2 and not thorough:
             envs = [pool[1 + rng.randrange(len(pool) - 1)]]
         else:
             envs = [pool[1 + rng.randrange(len(pool) - 1)] for _ in range(n_env)]
@@ -285,7 +293,9 @@ def run(tier, seed):
     jobs = []
     for n, tid in enumerate(tids):
         rot = [c for c in configs if c != "full"]
-        for c in (configs if thorough else ["full", rot[n % len(rot)]]):
+        quick_cfgs = ["full", rot[n % len(rot)]] if cat.BY_ID[tid]["cost"] <= 2 else \
+            [["full"], [rot[n % len(rot)]]][(n + seed) % 2]
+        for c in (configs if thorough else quick_cfgs):
             env = dict(pool[rng.randrange(len(pool))], config=c)
             steps = [{"op": "req", "t": tid}]
             jobs.append({"kind": "c19", "seed": seed, "run": f"config-{c}-{tid}", "env": env,
@@ -307,8 +317,10 @@ def run(tier, seed):
     else:
         H = stress_histories()
         names = sorted(H)
-        for tid in tids:
+        for n, tid in enumerate(tids):
             hname = names[rng.randrange(len(names))]
+            if cat.BY_ID[tid]["cost"] >= 3 and (n + seed) % 2:
+                continue     # expensive templates: every other one per seed in the quick tier
             steps = H[hname] + [{"op": "req", "t": tid}]
             jobs.append({"kind": "c19", "seed": seed, "run": f"sys-{hname}-{tid}",
                          "env": pool[0], "params": dict(DEFAULT_PARAMS, faultfree=False),
@@ -347,7 +359,7 @@ def run(tier, seed):
     # process-level state - a memo table, a mutated default - shows up in the panel)
     panel = [t for t in PANEL if t in ref]
     if not thorough:
-        panel = panel[:5]
+        panel = panel[:4]
     for n, tid in enumerate(tids):
         if cat.BY_ID[tid]["cost"] > (8 if thorough else 3):
             continue
